@@ -38,6 +38,15 @@ def batch(rng, schema, n, start, cat_pool=None):
             df[name] = pd.Categorical([rng.choice(cats) for _ in range(n)], categories=cats)
         elif kind == "part":
             df[name] = np.array([rng.choice([0, 1, 2]) for _ in range(n)], dtype="int64")
+        elif kind in ("objint", "objbool"):
+            # python ints / bools with None in an object column; missing values only in the FIRST batch, so that the
+            # last row group of the grown dataset has none
+            vals = [(rng.randrange(0, 100) if kind == "objint" else bool(rng.randrange(0, 2))) for _ in range(n)]
+            if start == 0 and n:
+                vals[0] = None
+                if n > 2:
+                    vals[n // 2] = None
+            df[name] = pd.Series(vals, dtype=object)
         else:
             # the first batch fixes the stored type of object columns by inference from a non-null value, so
             # an all-null first batch of text is not "the same dtype" as later text (observed: TypeError, refused)
@@ -61,6 +70,8 @@ def run(ctx, report):
                   "simple-catgrow", "hive-catgrow"][s % 12]
         cats_differ = layout.endswith("catdiff") or (layout.endswith("-cat") and False)
         schema = [("a", rng.choice(KINDS)), ("b", rng.choice(KINDS))]
+        if s % 12 in (3, 9):
+            schema = [("a", "objint"), ("b", "objbool")]
         if "cat" in layout:
             schema.append(("c", "cat"))
         partitioned = layout == "hive-part"
